@@ -17,7 +17,8 @@ def run(timeout=2400, tier='quick', native=False):
     Miri's allocator does only now and then) -- catches stale per-address state; no memory-safety checking in that mode"""
     t0 = time.time()
     # Miri's cached test binary remembers the directory it was built in: use one fixed scratch path
-    d = '/tmp/riti-verif-miri-scratch' if not native else tempfile.mkdtemp(prefix='riti-verif-ffi-native-')
+    base = '/var/tmp' if os.access('/var/tmp', os.W_OK) else '/tmp'
+    d = os.path.join(base, 'riti-verif-miri-scratch') if not native else tempfile.mkdtemp(prefix='riti-verif-ffi-native-', dir=base)
     shutil.rmtree(d, ignore_errors=True)
     os.makedirs(d)
     try:
